@@ -75,6 +75,7 @@ fn receivers() -> Vec<Recv> {
 		Recv { name: "Ref<array>", setup: "\tlet data = [RwLock::new(1), RwLock::new(2)];\n\tlet c = RefLockCollection::new(&data);\n", lock: "c.lock(K)", try_lock: "c.try_lock(K)", scoped: "scoped_lock", scoped_try: "scoped_try_lock", read: Some(("c.read(K)", "c.try_read(K)", "scoped_read", "scoped_try_read")), unlock: "RefLockCollection::<[RwLock<i32>; 2]>::unlock(g)", place: "*g[0]", touch: "*d[0] += 1" },
 		Recv { name: "Owned<Vec>", setup: "\tlet c = OwnedLockCollection::new(vec![RwLock::new(1), RwLock::new(2)]);\n", lock: "c.lock(K)", try_lock: "c.try_lock(K)", scoped: "scoped_lock", scoped_try: "scoped_try_lock", read: Some(("c.read(K)", "c.try_read(K)", "scoped_read", "scoped_try_read")), unlock: "OwnedLockCollection::<Vec<RwLock<i32>>>::unlock(g)", place: "*g[0]", touch: "*d[0] += 1" },
 		Recv { name: "Retrying<boxed slice>", setup: "\tlet c = RetryingLockCollection::new(vec![RwLock::new(1), RwLock::new(2)].into_boxed_slice());\n", lock: "c.lock(K)", try_lock: "c.try_lock(K)", scoped: "scoped_lock", scoped_try: "scoped_try_lock", read: Some(("c.read(K)", "c.try_read(K)", "scoped_read", "scoped_try_read")), unlock: "RetryingLockCollection::<Box<[RwLock<i32>]>>::unlock(g)", place: "*g[0]", touch: "*d[0] += 1" },
+		Recv { name: "Poisonable<RwLock>", setup: "\tlet c = Poisonable::new(RwLock::new(1));\n", lock: "c.lock(K).unwrap()", try_lock: "c.try_lock(K).unwrap()", scoped: "scoped_lock", scoped_try: "scoped_try_lock", read: Some(("c.read(K).unwrap()", "c.try_read(K).unwrap()", "scoped_read", "scoped_try_read")), unlock: "Poisonable::<RwLock<i32>>::unlock(g)", place: "*g", touch: "*d.unwrap() += 1" },
 		Recv { name: "Poisonable<Mutex>", setup: "\tlet c = Poisonable::new(Mutex::new(1));\n", lock: "c.lock(K).unwrap()", try_lock: "c.try_lock(K).unwrap()", scoped: "scoped_lock", scoped_try: "scoped_try_lock", read: None, unlock: "Poisonable::<Mutex<i32>>::unlock(g)", place: "*g", touch: "*d.unwrap() += 1" },
 	]
 }
@@ -193,6 +194,19 @@ pub fn entries() -> Vec<Entry> {
 			"",
 			&["E0382", "E0505", "E0507", "E0525"],
 		));
+		// nothing but the thread's key (owned or exclusively borrowed) is accepted as a key, by any acquiring API
+		for (fake, label) in [("()", "unit"), ("&key", "shared-borrow")] {
+			v.push(e("C14", "non-key-as-key", &format!("{}::lock({})", r.name, label), &setup, &format!("	let g = {};", lk(fake)), &format!("	let g = {};", lk("key")), "", &["E0277", "E0308"]));
+			v.push(e("C14", "non-key-as-key", &format!("{}::try_lock({})", r.name, label), &setup, &format!("	let g = {};", tlk(fake)), &format!("	let g = {};", tlk("key")), "", &["E0277", "E0308"]));
+			v.push(e("C14", "non-key-as-key", &format!("{}::{}({})", r.name, r.scoped, label), &setup, &format!("	c.{}({}, |d| {{ {}; }});", r.scoped, fake, r.touch), &format!("	c.{}(&mut key, |d| {{ {}; }});", r.scoped, r.touch), "", &["E0277", "E0308"]));
+			v.push(e("C14", "non-key-as-key", &format!("{}::{}({})", r.name, r.scoped_try, label), &setup, &format!("	let _ = c.{}({}, |d| {{ {}; }});", r.scoped_try, fake, r.touch), &format!("	let _ = c.{}(&mut key, |d| {{ {}; }});", r.scoped_try, r.touch), "", &["E0277", "E0308"]));
+			if let Some((read, try_read, sread, stread)) = r.read {
+				v.push(e("C14", "non-key-as-key", &format!("{}::read({})", r.name, label), &setup, &format!("	let g = {};", read.replace("K", fake)), &format!("	let g = {};", read.replace("K", "key")), "", &["E0277", "E0308"]));
+				v.push(e("C14", "non-key-as-key", &format!("{}::try_read({})", r.name, label), &setup, &format!("	let g = {};", try_read.replace("K", fake)), &format!("	let g = {};", try_read.replace("K", "key")), "", &["E0277", "E0308"]));
+				v.push(e("C14", "non-key-as-key", &format!("{}::{}({})", r.name, sread, label), &setup, &format!("	c.{}({}, |d| {{ use_ref(&d); }});", sread, fake), &format!("	c.{}(&mut key, |d| {{ use_ref(&d); }});", sread), "", &["E0277", "E0308"]));
+				v.push(e("C14", "non-key-as-key", &format!("{}::{}({})", r.name, stread, label), &setup, &format!("	let _ = c.{}({}, |d| {{ use_ref(&d); }});", stread, fake), &format!("	let _ = c.{}(&mut key, |d| {{ use_ref(&d); }});", stread), "", &["E0277", "E0308"]));
+			}
+		}
 		// guards carry the key: they must not cross threads, be cloned, or expose the key
 		v.push(e("C14", "send-guard", &format!("{} guard", r.name), &format!("{}\tlet g = {};\n", setupo, lk("key")), "\tstd::thread::scope(|s| { s.spawn(move || drop(g)); });", "\tstd::thread::scope(|s| { s.spawn(move || ()); }); drop(g);", "", &["E0277"]));
 		v.push(e("C14", "clone-guard", &format!("{} guard", r.name), &format!("{}\tlet g = {};\n", setupo, lk("key")), "\tneed_clone(&g);", "\tuse_ref(&g);", "", &["E0277"]));
@@ -220,6 +234,10 @@ pub fn entries() -> Vec<Entry> {
 				"",
 				&["E0499", "E0500", "E0501", "E0502", "E0524", "E0525"],
 			));
+			// C15: a shared hold never yields mutable access (readers would race)
+			v.push(e("C15", "mutate-through-shared-hold", &format!("{} read guard", r.name), &format!("{}\tlet mut g = {};\n", setupo, read.replace("K", "key")), &format!("\t{} += 1;", r.place), &format!("\tuse_ref(&{});", r.place), "", &["E0594", "E0596"]));
+			v.push(e("C15", "mutate-through-shared-hold", &format!("{}::{}", r.name, sread), &setup, &format!("\tc.{}(&mut key, |d| {{ {}; }});", sread, r.touch), &format!("\tc.{}(&mut key, |d| {{ use_ref(&d); }});", sread), "", &["E0594", "E0596"]));
+			v.push(e("C15", "mutate-through-shared-hold", &format!("{}::{}", r.name, stread), &setup, &format!("\tlet _ = c.{}(&mut key, |d| {{ {}; }});", stread, r.touch), &format!("\tlet _ = c.{}(&mut key, |d| {{ use_ref(&d); }});", stread), "", &["E0594", "E0596"]));
 			// C15: a reference leaving a shared scoped closure
 			v.push(e("C15", "ref-escapes-scoped-closure", &format!("{}::{}", r.name, stread), &setup, &format!("\tlet r = c.{}(&mut key, |d| d);", stread), &format!("\tlet r = c.{}(&mut key, |d| {{ use_ref(&d); }});", stread), "\tuse_ref(&r);\n", &["E0521", "E0597", "E0515", "E0716", "E0505", "E0499", "E0502", "E0506", "E0310", "E0495", "E0308", "E0700", "E0373", "E0623", "E0312", "E0759", "E0282", "E????"]));
 			v.push(e("C15", "ref-escapes-scoped-closure", &format!("{}::{}", r.name, sread), &setup, &format!("\tlet r = c.{}(&mut key, |d| d);", sread), &format!("\tlet r = c.{}(&mut key, |d| {{ use_ref(&d); }});", sread), "\tuse_ref(&r);\n", &["E0521", "E0597", "E0515", "E0716", "E0505", "E0499", "E0502", "E0506", "E0310", "E0495", "E0308", "E0700", "E0373", "E0623", "E0312", "E0759", "E0282", "E????"]));
@@ -270,6 +288,11 @@ pub fn entries() -> Vec<Entry> {
 	let ow = "\tlet c = OwnedLockCollection::new([Mutex::new(1), Mutex::new(2)]);\n";
 	v.push(e("C15", "owned-shared-access", "Owned::child", ow, "\tlet inner = c.child();", "\tlet inner = &c;", "", &["E0599"]));
 	v.push(e("C15", "owned-shared-access", "Owned::as_ref", ow, "\tlet inner: &[Mutex<i32>; 2] = c.as_ref();", "\tlet inner = &c;", "", &["E0599", "E0277"]));
+	v.push(e("C15", "owned-shared-access", "Owned::as_ref (slice)", ow, "\tlet inner: &[Mutex<i32>] = c.as_ref();", "\tlet inner = &c;", "", &["E0599", "E0277"]));
+	v.push(e("C15", "owned-shared-access", "Owned<Vec>::as_ref (slice)", "\tlet c = OwnedLockCollection::new(vec![Mutex::new(1), Mutex::new(2)]);\n", "\tlet inner: &[Mutex<i32>] = c.as_ref();", "\tlet inner = &c;", "", &["E0599", "E0277"]));
+	v.push(e("C15", "owned-shared-access", "Owned<Vec>::as_ref (Vec)", "\tlet c = OwnedLockCollection::new(vec![Mutex::new(1), Mutex::new(2)]);\n", "\tlet inner: &Vec<Mutex<i32>> = c.as_ref();", "\tlet inner = &c;", "", &["E0599", "E0277"]));
+	v.push(e("C15", "owned-shared-access", "Owned<Box<[]>>::as_ref (slice)", "\tlet c = OwnedLockCollection::new(vec![Mutex::new(1), Mutex::new(2)].into_boxed_slice());\n", "\tlet inner: &[Mutex<i32>] = c.as_ref();", "\tlet inner = &c;", "", &["E0599", "E0277"]));
+	v.push(e("C15", "owned-shared-access", "Owned: Deref", ow, "\tlet inner: &[Mutex<i32>; 2] = &*c;", "\tlet inner = &c;", "", &["E0614", "E0308"]));
 	v.push(e("C15", "owned-shared-access", "Owned::iter", ow, "\tfor m in c.iter() { use_ref(m); }", "\tfor m in c { use_ref(&m); }", "", &["E0599"]));
 	v.push(e("C15", "owned-shared-access", "(&Owned).into_iter", ow, "\tfor m in &c { use_ref(m); }", "\tfor m in c { use_ref(&m); }", "", &["E0277"]));
 	v.push(e("C15", "owned-shared-access", "Owned::deref", ow, "\tlet first = &c[0];", "\tlet first = &c;", "", &["E0608"]));
@@ -458,9 +481,14 @@ pub fn entries() -> Vec<Entry> {
 	v
 }
 
+/// Where the generated programs are written (overridable for development copies of the harness).
+fn out_root() -> String {
+	std::env::var("HLVERIF_OUT_DIR").unwrap_or_else(|_| "/verif/c14c15/out".into())
+}
+
 fn find_rlib() -> Result<(String, String), String> {
 	// ask cargo for the artifact built from /repo's current working tree (harness already built by run.sh)
-	let out = Command::new("cargo").args(["build", "--release", "--message-format=json", "-q"]).current_dir("/verif/harness").env("CARGO_NET_OFFLINE", "true").output().map_err(|e| e.to_string())?;
+	let out = Command::new("cargo").args(["build", "--release", "--message-format=json", "-q"]).current_dir(std::env::var("HLVERIF_HARNESS_DIR").unwrap_or_else(|_| "/verif/harness".into())).env("CARGO_NET_OFFLINE", "true").output().map_err(|e| e.to_string())?;
 	let mut rlib = None;
 	for line in String::from_utf8_lossy(&out.stdout).lines() {
 		if let Ok(v) = serde_json::from_str::<Value>(line) {
@@ -553,7 +581,7 @@ pub fn run_route(route_prefix: &str, prop: &'static str, rep: &mut Report) {
 		}
 	};
 	let all: Vec<Entry> = entries().into_iter().filter(|e| e.route.starts_with(route_prefix)).collect();
-	let dir = format!("/verif/c14c15/out/{}-{}", prop, route_prefix);
+	let dir = format!("{}/{}-{}", out_root(), prop, route_prefix);
 	let _ = std::fs::remove_dir_all(&dir);
 	std::fs::create_dir_all(&dir).expect("mkdir");
 	let outs = par_cases(&all, |_, en| {
@@ -594,7 +622,7 @@ pub fn check(prop: &'static str, tier: &str) -> ! {
 		}
 	};
 	let all: Vec<Entry> = entries().into_iter().filter(|e| e.prop == prop).collect();
-	let dir = format!("/verif/c14c15/out/{}", prop);
+	let dir = format!("{}/{}", out_root(), prop);
 	let _ = std::fs::remove_dir_all(&dir);
 	std::fs::create_dir_all(&dir).expect("mkdir");
 	struct Res {
